@@ -35,9 +35,13 @@ fn lse(v: &[f64]) -> f64 {
 
 /// exact posterior LLRs for the 3 bits, computed with max-shifted log-sum-exp of -|r-s|^2/(2 sigma^2)
 fn psk8_oracle(cons: &[([u8; 3], Complex<f64>)], r: Complex<f64>, sigma: f64) -> ([f64; 3], f64) {
-    // metric: -|r-s|^2/(2s^2) = const + <r,s>/s^2 - |s|^2/(2 s^2); keep the |s|^2 term (exactness does not rely on unit energy)
+    // metric: -|r-s|^2/(2 sigma^2) = const + <r,s>/sigma^2 - |s|^2/(2 sigma^2). The constellation has unit energy (checked
+    // separately to 1e-12), so the last term is common to all symbols and is left out: keeping it would multiply the
+    // last-bit differences of the eight float |s|^2 by 1/sigma^2 and drown the result for small sigma (the first
+    // version of this oracle did, and was blind below sigma ~ 1e-4).
     let inv = 1.0 / (sigma * sigma);
-    let met: Vec<f64> = cons.iter().map(|(_, s)| (r.re * s.re + r.im * s.im) * inv - 0.5 * (s.re * s.re + s.im * s.im) * inv).collect();
+    let (rs_re, rs_im) = (r.re * inv, r.im * inv);
+    let met: Vec<f64> = cons.iter().map(|(_, s)| rs_re * s.re + rs_im * s.im).collect();
     let scale = met.iter().fold(0.0f64, |a, x| a.max(x.abs()));
     let mut out = [0.0; 3];
     for b in 0..3 {
@@ -159,7 +163,7 @@ fn hard(llr: f64) -> u8 {
 }
 
 pub fn run(run: &mut Run) {
-    run.rule = "BPSK: LLR vs (|r-s1|^2-|r-s0|^2)/(2 sigma^2) with s0,s1 read from the public modulator (relative 1e-13); 8PSK: LLR_b vs max-shifted log-sum-exp over the constellation obtained from the public modulator (all 8 triples), tolerance 1e-9(1+|L|) + 64u*max|metric|; samples: constellation points (scaled), decision boundaries, origin, far away (|r| up to 1e3, and up to 1e100 with a proportionally large sigma), points exactly on the bisectors t*(1, sqrt2-1) and their images and 1-ulp neighbours, realistic noisy points, polar/log-uniform 1e-3..1e3; sigma log-uniform 1e-3..1e3 and (5 %) 1e-150..1e150 with r = sigma^2 * t, t in 0.1..30; whole blocks of 1000..140000 symbols (around 2^15, 2^16, 2^17 and not multiples of 256) checked symbol by symbol; constellation = DVB-S2 Gray mapping, unit energy, neighbours differ in one bit; noiseless hard decisions for random bit sequences (owned arrays and reversed/strided views) return the bits; non-trivial = sample with |r|>0 not on a symmetry axis; distinct by (r, sigma) digest".into();
+    run.rule = "BPSK: LLR vs (|r-s1|^2-|r-s0|^2)/(2 sigma^2) with s0,s1 read from the public modulator (relative 1e-13); 8PSK: LLR_b vs max-shifted log-sum-exp of <r,s>/sigma^2 over the constellation obtained from the public modulator (all 8 triples; unit energy checked separately), tolerance 1e-9(1+|L|) + 64u*max|<r,s>/sigma^2|; samples: constellation points (scaled), decision boundaries, origin, far away (|r| up to 1e3, and up to 1e100 with a proportionally large sigma), points exactly on the bisectors t*(1, sqrt2-1) and their images and 1-ulp neighbours, realistic noisy points, polar/log-uniform 1e-3..1e3; sigma log-uniform 1e-3..1e3 and (5 %) 1e-150..1e150 with r = sigma^2 * t, t in 0.1..30; whole blocks of 1000..140000 symbols (around 2^15, 2^16, 2^17 and not multiples of 256) checked symbol by symbol; constellation = DVB-S2 Gray mapping, unit energy, neighbours differ in one bit; noiseless hard decisions for random bit sequences (owned arrays and reversed/strided views) return the bits; non-trivial = sample with |r|>0 not on a symmetry axis; distinct by (r, sigma) digest".into();
     run.assumptions = vec!["|r|/sigma^2 stays below about 1e9 in every generated sample (far below the floating range)".into()];
     let n = if cfg!(miri) { 40 } else { run.tier.n(20_000_000, 600_000_000) };
     let chunk = 500u64;
